@@ -173,6 +173,28 @@ def H2 : E → Bool
   | .un _ x => H2 x
   | .bin o l r => H2 l && H2 r && !(o == .pow && isNegnum l)
 
+/-- utils.rs `expression_ends_with_prefix`, with `isPfx k` telling whether atom `k` is a prefix
+expression (identifier, call, field, index) or not (number, string, table, function, ...). -/
+def expressionEndsWithPrefix (isPfx : Nat → Bool) : E → Bool
+  | .atom k => isPfx k
+  | .negnum _ => false
+  | .paren _ => true
+  | .ifexp _ _ b => expressionEndsWithPrefix isPfx b
+  | .cast _ _ => false
+  | .un _ x => expressionEndsWithPrefix isPfx x
+  | .bin _ _ r => expressionEndsWithPrefix isPfx r
+
+/-- H₃ (finding F26): the written form does not end with a parenthesis the printer adds itself,
+and negative literals are numbers (not prefix expressions). -/
+def H3 (isPfx : Nat → Bool) : E → Bool
+  | .atom _ => true
+  | .negnum k => !isPfx k
+  | .paren _ => true
+  | .ifexp _ _ b => H3 isPfx b
+  | .cast _ _ => true
+  | .un _ x => !unaryNeedsParentheses x && H3 isPfx x
+  | .bin o _ r => !rightNeedsParentheses o r && H3 isPfx r
+
 /-! ### character level: utils.rs -/
 
 def isDigit (c : Nat) : Bool := 48 ≤ c && c ≤ 57
